@@ -60,6 +60,9 @@ type Event struct {
 	Fnil  map[string]bool       `json:"fnil"`
 	By    map[string][][][]int  `json:"by"`
 	Snaps []Snap                `json:"snaps"`
+	After [][]int               `json:"after"`
+	AfterBy map[string][][]int  `json:"afterby,omitempty"`
+	Types string                `json:"types,omitempty"`
 	Case  int                   `json:"case"`
 	Sig   map[string]Shape      `json:"sig,omitempty"`
 	Opt   *Opt                  `json:"opt,omitempty"`
@@ -89,6 +92,9 @@ type Plan struct {
 	MaxMismatch int                 `json:"max_mismatch"`
 	Workers     int                 `json:"workers"`
 	HangSeconds int                 `json:"hang_seconds"`
+	ClassTypes  map[string]string   `json:"class_types"`  // class id -> type set name
+	ClassRefPos map[string][]int    `json:"class_refpos"` // class id -> reference-like non-variadic positions (TLA+ table)
+	SparsePkgs  []string            `json:"sparse_pkgs"`  // packages that hold mocks of some classes only
 	LightPkgs   []string            `json:"light_pkgs"`    // packages replayed only for histories of <= LightMaxOps operations
 	LightMaxOps int                 `json:"light_max_ops"` // (skip-ensure has no run-time meaning)
 }
@@ -369,13 +375,18 @@ func (r *replay) makeFunc(m, f string) reflect.Value {
 			args[i] = decodeArg(v, ft.IsVariadic() && i == len(in)-1)
 		}
 		r.fwd = append(r.fwd, FwdEntry{M: m, F: f, Args: args})
+		if f == "F1" { // the table function also writes through every reference-like argument it is given
+			for _, v := range in {
+				mutate(v)
+			}
+		}
 		switch f {
 		case "FP":
 			panic(fpPanic{})
 		case "FR":
 			if r.depth == 0 {
 				r.depth++
-				rep := r.call(m, r.c.Inner)
+				rep, _ := r.call(m, r.c.Inner)
 				r.depth--
 				r.inner = rep.Res
 			}
@@ -402,8 +413,61 @@ func (r *replay) setFunc(m, f string) {
 	fld.Set(r.makeFunc(m, f))
 }
 
-func (r *replay) call(m string, args [][]int) (rep Reply) {
+// mutate: what the table function F1 does to a reference-like argument it was given (MutDelta = 5 on the first code)
+func mutate(v reflect.Value) {
+	defer func() { recover() }()
+	switch v.Kind() {
+	case reflect.Slice:
+		if v.Len() > 0 {
+			e := v.Index(0)
+			e.Set(encode(e.Type(), decode(e)+5))
+		}
+	case reflect.Map:
+		for _, k := range v.MapKeys() {
+			v.SetMapIndex(k, encode(v.Type().Elem(), decode(v.MapIndex(k))+5))
+			break
+		}
+	case reflect.Ptr:
+		if !v.IsNil() {
+			v.Elem().Set(encode(v.Type().Elem(), decode(v.Elem())+5))
+		}
+	}
+}
+
+func isRefKind(t reflect.Type) bool {
+	switch t.Kind() {
+	case reflect.Slice, reflect.Map, reflect.Ptr, reflect.Chan, reflect.Func:
+		return true
+	}
+	return false
+}
+
+// restore puts the caller's own argument object back to what the caller had put there
+func restore(v reflect.Value, codes []int) {
+	defer func() { recover() }()
+	switch v.Kind() {
+	case reflect.Slice:
+		for j := 0; j < v.Len() && j < len(codes); j++ {
+			v.Index(j).Set(encode(v.Type().Elem(), codes[j]))
+		}
+	case reflect.Map:
+		for _, k := range v.MapKeys() {
+			v.SetMapIndex(k, encode(v.Type().Elem(), codes[0]))
+			break
+		}
+	case reflect.Ptr:
+		if !v.IsNil() {
+			v.Elem().Set(encode(v.Type().Elem(), codes[0]))
+		}
+	}
+}
+
+// call performs m(args) the way a caller owning its argument objects does (the variadic part is a slice the caller
+// holds and spreads).  after = the caller's argument objects as they look when the call is over; they are then put
+// back, so that records are compared with what was passed.
+func (r *replay) call(m string, args [][]int) (rep Reply, after [][]int) {
 	rep = Reply{Kind: "ret", Res: []int{}, Inner: []int{}}
+	after = [][]int{}
 	meth, ok := r.method(m)
 	if !ok {
 		rep.Kind = "nomethod"
@@ -417,9 +481,14 @@ func (r *replay) call(m string, args [][]int) (rep Reply) {
 			return
 		}
 		if mt.IsVariadic() && i == mt.NumIn()-1 {
-			for _, c := range args[i] {
-				in = append(in, encode(mt.In(i).Elem(), c))
+			vs := reflect.Zero(mt.In(i)) // no elements: nil slice, as f() passes
+			if len(args[i]) > 0 {
+				vs = reflect.MakeSlice(mt.In(i), len(args[i]), len(args[i]))
+				for j, c := range args[i] {
+					vs.Index(j).Set(encode(mt.In(i).Elem(), c))
+				}
 			}
+			in = append(in, vs)
 		} else {
 			in = append(in, encode(mt.In(i), args[i][0]))
 		}
@@ -437,8 +506,20 @@ func (r *replay) call(m string, args [][]int) (rep Reply) {
 				rep.Names = strings.Contains(fmt.Sprint(p), r.fname(m))
 			}
 		}
+		for i, v := range in {
+			variadic := mt.IsVariadic() && i == len(in)-1
+			after = append(after, decodeArg(v, variadic))
+			if variadic || isRefKind(v.Type()) {
+				restore(v, args[i])
+			}
+		}
 	}()
-	out := meth.Call(in)
+	var out []reflect.Value
+	if mt.IsVariadic() {
+		out = meth.CallSlice(in)
+	} else {
+		out = meth.Call(in)
+	}
 	for _, o := range out {
 		rep.Res = append(rep.Res, decode(o))
 	}
@@ -539,6 +620,14 @@ func norm(e *Event) {
 	if e.Snaps == nil {
 		e.Snaps = []Snap{}
 	}
+	if e.After == nil {
+		e.After = [][]int{}
+	}
+	for i := range e.After {
+		if e.After[i] == nil {
+			e.After[i] = []int{}
+		}
+	}
 	for si := range e.Snaps {
 		if e.Snaps[si].Recs == nil {
 			e.Snaps[si].Recs = [][][]int{}
@@ -589,7 +678,7 @@ func (r *replay) step(x *Event) Event {
 	case "setfunc":
 		r.setFunc(x.M, x.F)
 	case "call":
-		e.Reply = r.call(x.M, x.Args)
+		e.Reply, e.After = r.call(x.M, x.Args)
 		if r.inner != nil {
 			e.Reply.Inner = r.inner
 		}
@@ -678,6 +767,10 @@ func main() {
 		wmu.Unlock()
 	}
 
+	sparse := map[string]bool{}
+	for _, p := range plan.SparsePkgs {
+		sparse[p] = true
+	}
 	light := map[string]bool{}
 	for _, p := range plan.LightPkgs {
 		light[p] = true
@@ -716,14 +809,17 @@ func main() {
 						ent, ok := registry[key]
 						mk := ent.mk
 						if !ok {
-							missing.Store(key, true)
+							if !sparse[pkg] {
+								missing.Store(key, true)
+							}
 							continue
 						}
 						id := atomic.AddInt64(&replays, 1)
+						types := plan.ClassTypes[cls]
 						r := &replay{mock: reflect.ValueOf(mk()), c: c, ent: ent, prevLogs: map[string][][][]int{"A": {}, "B": {}}}
 						r.by = &replay{mock: reflect.ValueOf(mk()), c: c, ent: ent}
 						for _, m := range methods {
-							r.by.setFunc(m, "F1")
+							r.by.setFunc(m, "F2")
 							r.by.call(m, c.ByArgs[m])
 						}
 						evs := make([]Event, 0, len(c.Ops)+1)
@@ -732,8 +828,24 @@ func main() {
 						r.by.observe(&be)
 						evs = append(evs, Event{Op: "reset", Case: int(id), Sig: c.Sig, Opt: &o, Init: c.Init,
 							Logs: map[string][][][]int{"A": {}, "B": {}}, Fnil: map[string]bool{"A": true, "B": true},
-							By: be.Logs})
+							By: be.Logs, Types: types})
 						norm(&evs[0])
+						// abstraction table check: the positions the TLA+ table calls reference-like are exactly those
+						// whose real parameter type is a slice, map, pointer, chan or func
+						if am, ok := r.method("A"); ok {
+							at := am.Type()
+							got := []int{}
+							for i := 0; i < at.NumIn(); i++ {
+								if !(at.IsVariadic() && i == at.NumIn()-1) && isRefKind(at.In(i)) {
+									got = append(got, i+1)
+								}
+							}
+							want := append([]int{}, plan.ClassRefPos[cls]...)
+							sort.Ints(want)
+							if !reflect.DeepEqual(got, want) {
+								r.broken = fmt.Sprintf("reference-position table disagrees with the real types: table %v, types %v", want, got)
+							}
+						}
 						for _, m := range methods {
 							if f := c.Init[m]; f != "nil" {
 								r.setFunc(m, f)
@@ -750,6 +862,11 @@ func main() {
 							if mm == nil {
 								xc := *x
 								xc.Case = int(id)
+								xc.After = x.AfterBy[types] // the model's expectation for this class's type set
+								if xc.After == nil {
+									xc.After = [][]int{}
+								}
+								xc.AfterBy = nil
 								if !reflect.DeepEqual(xc, e) {
 									mm = map[string]interface{}{"step": k, "expected": xc, "observed": e}
 								}
